@@ -22,6 +22,10 @@ HDR = ("From Coq Require Import List NArith ZArith Bool.\n"
        "From RB Require Import Base.Result Model.Buffer Model.Font Model.Gpos Model.Attach Model.Kern Model.PosPipe Corr.Common Corr.GposC.\n"
        "Import ListNotations.\n")
 
+XSTREAM_SHARD = 999999   # shard key of the known-finding probe (its font indices are >= 1000000)
+XSTREAM_BASE = 1000000
+KNOWN_XSTREAM = "kern_cross_stream_resets_attachments"
+
 DIRS = {"ltr": "LTR", "rtl": "RTL", "ttb": "TTB", "btt": "BTT"}
 HOR = {"-": "None", "Phnx": "(Some RTL)", "Latn": "(Some LTR)"}
 
@@ -70,8 +74,8 @@ def glyphs_coq(gs):
     return "(Some [%s])" % "; ".join(out)
 
 
-def run_cases(binp, seed, first, n):
-    rc, out, err = C.run_rbv(binp, ["c07", "cases", "--seed", seed, "--first", first, "--n", n], timeout=600)
+def run_cases(binp, seed, first, n, cmd="cases"):
+    rc, out, err = C.run_rbv(binp, ["c07", cmd, "--seed", seed, "--first", first, "--n", n], timeout=600)
     if rc != 0:
         raise RuntimeError("rbv c07 cases failed rc=%d: %s" % (rc, err[-800:]))
     fonts = {}
@@ -106,9 +110,12 @@ def correspondence(chk, binp, nfonts, shard_fonts=12):
     anomalies = []
     total_cases = 0
     # the harness is fast; run it in a few chunks so that fonts/cases stay associated with a shard
-    for first in range(0, nfonts, shard_fonts):
-        n = min(shard_fonts, nfonts - first)
-        fonts, cases, geos, st, an = run_cases(binp, seed, first, n)
+    shards = [("cases", first, min(shard_fonts, nfonts - first)) for first in range(0, nfonts, shard_fonts)]
+    shards.append(("xstream", XSTREAM_SHARD, 6))   # known-finding probe: Marks fonts + cross-stream kern subtable
+    for cmd, first, n in shards:
+        fonts, cases, geos, st, an = run_cases(binp, seed, first, n, cmd)
+        if cmd == "xstream":
+            st = {"xstream." + k: v for k, v in st.items()}
         all_geo += geos
         anomalies += an
         for k, v in st.items():
@@ -209,11 +216,32 @@ def run(chk):
         for a in anomalies[:5]:
             dis.append({"what": "harness-anomaly", "line": a[:500]})
         # ---- implementation-level geometric predicate failures
+        xstream_hits = []
         for g in geos:
             m = re.match(r"geo (\d+) (\d+) (\S+) FAIL (.*?) req=\[(.*)\]$", g)
             if m:
-                fails.append({"what": "geometry-" + m.group(3), "font_index": int(m.group(1)), "case": int(m.group(2)),
-                              "detail": m.group(4), "request": m.group(5)})
+                f = {"what": "geometry-" + m.group(3), "font_index": int(m.group(1)), "case": int(m.group(2)),
+                     "detail": m.group(4), "request": m.group(5)}
+                mc = re.match(r"chk=(\S+) ", m.group(4))
+                if mc:
+                    f["anchor_check"] = mc.group(1)
+                if f["font_index"] >= XSTREAM_BASE and m.group(3) in ("markbase", "marklig", "markmark"):
+                    f["class"] = KNOWN_XSTREAM
+                    f["what"] = "geometry-" + m.group(3) + "-under-cross-stream-kern"
+                    xstream_hits.append(f)
+                else:
+                    fails.append(f)
+        # ---- the known-finding class: cross-stream kern subtable + GPOS attachments
+        chk.note("xstream_probe", {"mark_attachment_failures": len(xstream_hits),
+                                   "attachments_checked": sum(v for k, v in stats.items() if k.startswith("xstream.geo.") and k.endswith(".attachments"))})
+        if xstream_hits:
+            if chk.is_known(KNOWN_XSTREAM):
+                chk.known_finding(KNOWN_XSTREAM, "%d mark attachments displaced on Marks fonts with a cross-stream kern subtable (e.g. font %d: %s)" % (
+                    len(xstream_hits), xstream_hits[0]["font_index"], xstream_hits[0]["detail"][:160]))
+            else:
+                fails += xstream_hits[:1]
+        elif chk.is_known(KNOWN_XSTREAM):
+            dis.append({"what": "stale-known-finding", "class": KNOWN_XSTREAM, "note": "the probe no longer fails; the KNOWN_FINDINGS entry is stale"})
         # ---- kern on/off on corpus fonts
         rc, out, err = C.run_rbv(binp, ["c07", "kernoff-corpus"], timeout=600)
         for line in out.splitlines():
@@ -300,6 +328,20 @@ def replay(chk, path):
         open(fp, "wb").write(base64.b64decode(body.get("font_base64", "")))
         rc, out, err = C.run_rbv(binp, ["shape", "--font", fp, "--req", body["request"]])
         print("from stored bytes:", out.strip())
+        stored_fail = False
+        if body.get("anchor_check"):
+            rc, out, err = C.run_rbv(binp, ["c07", "anchors", "--font", fp, "--req", body["request"], "--check", body["anchor_check"]])
+            print(out.strip()[:1500])
+            stored_fail = stored_fail or " FAIL " in out or "panic" in out
+        if "kern-off" in body.get("kind", ""):
+            rc, out, err = C.run_rbv(binp, ["c07", "kernoff-bytes", "--font", fp, "--req", body["request"]])
+            print(out.strip()[:1500])
+            stored_fail = stored_fail or " FAIL " in out or "panic" in out
+        if stored_fail:
+            print("STILL FAILING on the stored font bytes")
+            return 1
+        if body.get("stored_bytes_only"):
+            return 0
         rc, out, err = C.run_rbv(binp, ["c07", "one", "--seed", seed, "--index", body["font_index"], "--req", body["request"]])
         still = False
         for line in out.splitlines():
